@@ -393,3 +393,47 @@ Section ExprInd.
     | Other k => HOther k
     end.
 End ExprInd.
+
+Section StmtInd.
+  Variable P : stmt -> Prop.
+  Hypothesis HExpr : forall e, P (SExpr e).
+  Hypothesis HIf : forall t b o, Forall P b -> Forall P o -> P (SIf t b o).
+  Hypothesis HWhile : forall t b o, Forall P b -> Forall P o -> P (SWhile t b o).
+  Hypothesis HFor : forall tg it b o, Forall P b -> Forall P o -> P (SFor tg it b o).
+  Hypothesis HBreak : P SBreak.
+  Hypothesis HContinue : P SContinue.
+  Hypothesis HPass : P SPass.
+  Hypothesis HAssign : forall ts v, P (SAssign ts v).
+  Hypothesis HAnnAssign : forall t v, P (SAnnAssign t v).
+  Hypothesis HAugAssign : forall t o v, P (SAugAssign t o v).
+  Hypothesis HFunctionDef : forall n ln a b d, Forall P b -> P (SFunctionDef n ln a b d).
+  Hypothesis HReturn : forall v, P (SReturn v).
+  Hypothesis HGlobal : forall ns, P (SGlobal ns).
+  Hypothesis HNonlocal : forall ns, P (SNonlocal ns).
+  Hypothesis HClassDef : forall n ln bs kws b d, Forall P b -> P (SClassDef n ln bs kws b d).
+  Hypothesis HImport : forall ns, P (SImport ns).
+  Hypothesis HImportFrom : forall m ns lv, P (SImportFrom m ns lv).
+  Hypothesis HUnsupported : forall k, P (SUnsupported k).
+
+  Fixpoint stmt_ind' (s : stmt) : P s :=
+    let fl := fix fl (l : list stmt) : Forall P l :=
+      match l with [] => Forall_nil _ | x :: r => Forall_cons _ (stmt_ind' x) (fl r) end in
+    match s with
+    | SExpr e => HExpr e
+    | SIf t b o => HIf t b o (fl b) (fl o)
+    | SWhile t b o => HWhile t b o (fl b) (fl o)
+    | SFor tg it b o => HFor tg it b o (fl b) (fl o)
+    | SBreak => HBreak | SContinue => HContinue | SPass => HPass
+    | SAssign ts v => HAssign ts v
+    | SAnnAssign t v => HAnnAssign t v
+    | SAugAssign t o v => HAugAssign t o v
+    | SFunctionDef n ln a b d => HFunctionDef n ln a b d (fl b)
+    | SReturn v => HReturn v
+    | SGlobal ns => HGlobal ns
+    | SNonlocal ns => HNonlocal ns
+    | SClassDef n ln bs kws b d => HClassDef n ln bs kws b d (fl b)
+    | SImport ns => HImport ns
+    | SImportFrom m ns lv => HImportFrom m ns lv
+    | SUnsupported k => HUnsupported k
+    end.
+End StmtInd.
